@@ -1692,7 +1692,197 @@ fn gen_records(g: &mut Gen) {
     }
 }
 
+
+/// every in-range coordinate tuple plus a few boundary ones: for views beyond the small sizes
+fn gen_gets_large(g: &mut Gen, lens: &[usize], tag: &str) {
+    let n: usize = lens.iter().product();
+    let mut tuples_: Vec<Vec<usize>> = if n <= 160 {
+        tuples(&lens.iter().map(|&l| (0..l).collect()).collect::<Vec<_>>())
+    } else {
+        (0..160).map(|_| lens.iter().map(|&l| g.rng.below(l)).collect()).collect()
+    };
+    for _ in 0..16 {
+        tuples_.push(lens.iter().map(|&l| *g.rng.pick(&bset(l))).collect());
+    }
+    for idx in tuples_ {
+        let inside = idx.iter().zip(lens.iter()).all(|(i, l)| i < l);
+        g.count(&format!("large.get.{}.{}", tag, if inside { "in" } else { "out" }));
+        let via = *g.rng.pick(&GET_VIAS);
+        g.op(format!("get {} via={}", show_usizes(&idx), via));
+    }
+}
+
+fn gen_mgets_large(g: &mut Gen, rows: usize, cols: usize, tag: &str) {
+    for r in 0..rows {
+        for c in 0..cols {
+            let via = *g.rng.pick(&MGET_VIAS);
+            g.op(format!("mget {} {} via={}", r, c, via));
+            g.count(&format!("large.mget.{}.in", tag));
+        }
+    }
+    for _ in 0..12 {
+        let (r, c) = (*g.rng.pick(&bset(rows)), *g.rng.pick(&bset(cols)));
+        let via = *g.rng.pick(&MGET_VIAS);
+        g.op(format!("mget {} {} via={}", r, c, via));
+    }
+}
+
+/// "Large cases": inputs beyond the small sizes of the other sections — sides 8–12, 1×70 / 70×1,
+/// dimensionality 5–6, deep stacks, many parts, 33–70 records — so that a fast path that only
+/// runs from some size on is executed too.
+fn gen_large(g: &mut Gen) {
+    // Tensor::try_from with many elements and with 5–6 dimensions; its checked getters
+    for lens in [vec![70usize], vec![8, 9], vec![12, 12], vec![2, 3, 2, 1, 3], vec![2, 2, 2, 2, 2, 2], vec![1, 70], vec![3, 1, 2, 2, 1, 3]] {
+        let shape = named_shape(&lens);
+        let p: usize = lens.iter().product();
+        for n in [p, p - 1, p + 1] {
+            g.op(format!("@ try_from {} {}", show_shape(&shape), n));
+            g.count(&format!("large.try_from.D={}", lens.len()));
+            if n == p {
+                gen_gets_large(g, &lens, "tensor");
+            }
+        }
+    }
+    // tensors of dimensionality 5–6 (and long vectors) as receivers through every adaptor kind
+    for lens in [vec![2usize, 1, 3, 2, 2], vec![2, 2, 1, 2, 3, 2], vec![33], vec![9, 8]] {
+        let shape = named_shape(&lens);
+        let d = lens.len();
+        let names: Vec<&str> = shape.iter().map(|s| s.0).collect();
+        let start = |g: &mut Gen| g.op(format!("@ tensor {}", show_shape(&shape)));
+        // reverse every second dimension, then a mask and a clipped range on top (depth 3)
+        start(g);
+        let rev: Vec<&str> = (0..d).filter(|i| i % 2 == 0).map(|i| names[i]).collect();
+        g.op(format!("reverse {}", show_names(&rev)));
+        gen_gets_large(g, &lens, "reverse");
+        let mut vl = lens.clone();
+        let k = (0..d).max_by_key(|&i| lens[i]).unwrap();
+        g.op(format!("mask from {}:0:1", names[k]));
+        vl[k] -= 1;
+        if vl[k] > 0 {
+            gen_gets_large(g, &vl, "mask_of_reverse");
+            g.op(format!("range from_strict {}:0:{}", names[k], vl[k]));
+            g.op(format!("range from {}:{}:{}", names[d - 1], 0, MAX));
+            gen_gets_large(g, &vl, "range_of_mask_of_reverse");
+            g.op(format!("rename {}", show_names(&(0..d).map(|i| NAMES[(i + 1) % 6].to_uppercase()).collect::<Vec<_>>().iter().map(|s| s.as_str()).collect::<Vec<_>>())));
+            gen_gets_large(g, &vl, "rename");
+            g.count("large.stack_depth=5");
+        }
+        // access / transposition by a rotation and by the reversed order
+        for op in ["access", "transpose"] {
+            for rot in [1usize, d - 1] {
+                start(g);
+                let order: Vec<usize> = (0..d).map(|i| (i + rot) % d).collect();
+                let list: Vec<&str> = order.iter().map(|&i| names[i]).collect();
+                g.op(format!("{} {}", op, show_names(&list)));
+                let vl: Vec<usize> = order.iter().map(|&i| lens[i]).collect();
+                gen_gets_large(g, &vl, op);
+            }
+        }
+        // select one dimension / expand by one
+        if d <= 6 {
+            start(g);
+            g.op(format!("index {}:{}", names[d / 2], lens[d / 2] - 1));
+            let rest: Vec<usize> = (0..d).filter(|i| *i != d / 2).map(|i| lens[i]).collect();
+            gen_gets_large(g, &rest, "index");
+        }
+        if d <= 5 {
+            start(g);
+            g.op(format!("expand {}:x", d / 2));
+            let mut v = lens.clone();
+            v.insert(d / 2, 1);
+            gen_gets_large(g, &v, "expand");
+        }
+    }
+    // stacks and chains of longer sources
+    g.op("@ stack a:33 3 0:s via=array".to_string());
+    gen_gets_large(g, &[3, 33], "stack");
+    g.op("@ stack a:3,b:11 4 2:s via=tuple".to_string());
+    gen_gets_large(g, &[3, 11, 4], "stack");
+    g.op("@ chain a:17|a:33|a:9 a via=array".to_string());
+    gen_gets_large(g, &[59], "chain");
+    g.op("@ chain a:2,b:17|a:2,b:16|a:2,b:1|a:2,b:36 b via=tuple".to_string());
+    gen_gets_large(g, &[2, 70], "chain");
+    // matrices with sides 8–12 and 1×70 / 70×1: ranges, reversals, stacks of depth 4–5
+    for (rows, cols) in [(8usize, 9usize), (12, 12), (1, 70), (70, 1), (10, 11)] {
+        g.op(format!("@ matrix {} {}", rows, cols));
+        gen_mgets_large(g, rows, cols, "matrix");
+        g.op(format!("@ matrix {} {}", rows, cols));
+        let (mut vr, mut vc) = (rows, cols);
+        for depth in 0..5 {
+            if depth % 2 == 0 {
+                let (rs, cs) = (if vr > 2 { 1 } else { 0 }, if vc > 2 { 1 } else { 0 });
+                let (rl, cl) = (if depth == 0 { MAX } else { vr - rs }, if depth == 2 { MAX - 1 } else { vc - cs });
+                g.op(format!("mrange {}:{} {}:{}", rs, rl, cs, cl));
+                vr = rs.saturating_add(rl).min(vr) - rs;
+                vc = cs.saturating_add(cl).min(vc) - cs;
+            } else {
+                g.op(format!("mreverse {} {}", depth % 4 / 2 + 1 - 1, 1));
+            }
+        }
+        g.count("large.matrix_stack_depth=5");
+        gen_mgets_large(g, vr, vc, "stack5");
+        g.op(format!("tmatrix x y"));
+        gen_gets_large(g, &[vr, vc], "tensor_ref_matrix");
+    }
+    // partition of a 12×12 matrix into 7×7 parts
+    let (rp, cp) = (vec![1usize, 3, 4, 6, 9, 11], vec![2usize, 3, 5, 8, 10, 12]);
+    for k in [0usize, 8, 16, 24, 27, 32, 40, 41, 47, 48] {
+        g.op(format!("@ partition 12 12 {} {} via=partition", show_usizes(&rp), show_usizes(&cp)));
+        g.op(format!("part {}", k));
+        let mut rb = rp.clone();
+        rb.push(12);
+        let mut cb = cp.clone();
+        cb.push(12);
+        let (ri, ci) = (k / 7, k % 7);
+        let pr = rb[ri] - if ri == 0 { 0 } else { rb[ri - 1] };
+        let pc = cb[ci] - if ci == 0 { 0 } else { cb[ci - 1] };
+        let (pr, pc) = if pr == 0 || pc == 0 { (0, 0) } else { (pr, pc) };
+        gen_mgets_large(g, pr, pc, "part");
+        g.count("large.part_of_49");
+    }
+    // conversions and decompositions at larger sizes (shape logic)
+    for (r, c) in [(9usize, 9usize), (12, 5), (5, 12), (1, 70), (70, 1)] {
+        g.op(format!("@ into_tensor {} {} x y via=into_tensor", r, c));
+        gen_gets_large(g, &[r, c], "into_tensor");
+        g.op(format!("@ try_into_scalar {} {}", r, c));
+        for f in ["cholesky", "ldlt", "qr"] {
+            if r * c <= 144 {
+                g.op(format!("@ linalg {} {} {} 0 via=fn", f, r, c));
+                g.op(format!("@ linalg {} {} {} 0 via=tensor", f, r, c));
+                g.count("large.linalg");
+            }
+        }
+    }
+    // record iterators of 33–70 records
+    for n in [33usize, 35, 64, 70] {
+        let consistent: Vec<&str> = vec!["1"; n];
+        let constants: Vec<&str> = vec!["c"; n];
+        let mut late: Vec<&str> = vec!["0"; n];
+        late[n - 2] = "2";
+        let mut twice = late.clone();
+        twice[17] = "1";
+        for hl in [&consistent, &constants, &late, &twice] {
+            let hs = hl.join(",");
+            let mut rev = (*hl).clone();
+            rev.reverse();
+            let hs2 = rev.join(",");
+            for lens in [vec![n], vec![n - 1], vec![5, 7], vec![7, 5], vec![1, n], vec![n, 1], vec![2, 5, 7], vec![8, 8], vec![2, 2, 2, 2, 2, 2], vec![HALF, 2]] {
+                let shape = named_shape(&lens);
+                g.op(format!("@ record tensor {} {}", show_shape(&shape), hs));
+                g.op(format!("@ records tensor {} {}|{}", show_shape(&shape), hs, hs2));
+                g.count("large.record.tensor");
+                if lens.len() == 2 {
+                    g.op(format!("@ record matrix rows:{},columns:{} {}", lens[0], lens[1], hs));
+                    g.op(format!("@ records matrix rows:{},columns:{} {}|{}", lens[0], lens[1], hs, hs2));
+                    g.count("large.record.matrix");
+                }
+            }
+        }
+    }
+}
+
 pub fn gen(g: &mut Gen) {
+    gen_large(g);
     gen_try_from(g);
     gen_access(g);
     gen_ranges(g);
